@@ -35,6 +35,10 @@ def run(ck: Checker):
     ck.rule('C20.FOLD', 'top_sort, dfs, bfs (every start set, both directions, with and without topological reporting of unvisited gates, hooks that read the live state mapping) and the cycle check folded on instances of the repository\'s Circuit class over a family of model circuits (stored operands-first and users-first, plus cyclic states) and compared with their definitions')
     from .. import eval_fold
     eval_fold.fold_traversals(ck, 'C20.FOLD')
+    ck.rule('C20.HIST', 'top_sort in both directions folded at random points of seeded histories of public mutations (incl. bench conversion, compositions, subcircuit replacement): every gate exactly once, after / before all of its operands (shared machinery with C02.HIST)')
+    from .. import history_fold
+    history_fold.fold_histories(ck, 'C20.HIST', only=(), observers=('top_sort',), n_hist=(120 if ck.tier == 'quick' else 1200))
+    ck.floor('C20.HIST', 1)
     ck.floor('C20.FOLD', 4)
     # the structural rules below state the same clauses for circuits of any size, but know only one way of writing the
     # traversals: where they do not recognise the code, the clause is left to the fold above
